@@ -354,6 +354,15 @@ func (c *Ctx) dictLookup() {
 					hasEq = true
 				}
 			})
+			// the scan delegated to the library: slices.IndexFunc(keys, func(k) bool { return k.Equal(key) }) visits
+			// every element in order and calls Equal on each
+			allInstrs(g, func(_ *ssa.BasicBlock, in ssa.Instruction) {
+				if cl, ok := in.(*ssa.Call); ok {
+					if e := equalIndexFunc(cl); e != nil && derivesFrom(cl.Call.Args[0], fieldLoadNamed("keys"), false) {
+						eq, scan = e, true
+					}
+				}
+			})
 			if hasEq {
 				// a loop over the whole key list: a range loop, or an index loop bounded by len(keys)
 				for _, b := range g.Blocks {
@@ -402,6 +411,10 @@ func (c *Ctx) dictLookup() {
 		allInstrs(g, func(_ *ssa.BasicBlock, in ssa.Instruction) {
 			if cl, ok := in.(*ssa.Call); ok && cl.Call.IsInvoke() && cl.Call.Method.Name() == "Compare" {
 				name := fnName(g)
+				// a function literal is its enclosing function's code
+				for p := g.Parent(); p != nil; p = p.Parent() {
+					name = fnName(p)
+				}
 				// an unexported helper called only from Put is Put's code
 				if via, ok := helperOf(g, func(n string) bool { return n == "(*tlb.Hashmap[keyT, T]).Put" }, 0); ok {
 					name = via
@@ -739,6 +752,17 @@ func (c *Ctx) dictResults() {
 		if plainHelper(h) == nil || h.Signature.Results().Len() != 1 || !isInteger(h.Signature.Results().At(0).Type()) {
 			return false
 		}
+		// return slices.IndexFunc(keys, func(k) bool { return k.Equal(key) }): the library's contract is the finder's
+		viaLib, nRet := true, 0
+		for _, r := range returnsOf(h) {
+			nRet++
+			if cl := callOf(retVal(r, 0)); cl == nil || equalIndexFunc(cl) == nil {
+				viaLib = false
+			}
+		}
+		if viaLib && nRet > 0 {
+			return true
+		}
 		hit, miss := 0, 0
 		for _, r := range returnsOf(h) {
 			v := retVal(r, 0)
@@ -768,7 +792,7 @@ func (c *Ctx) dictResults() {
 			}
 			cl := callOf(bo.X)
 			k, isK := constInt(bo.Y)
-			if cl == nil || !isK || cl.Call.StaticCallee() == nil || !indexFinder(origin(cl.Call.StaticCallee())) {
+			if cl == nil || !isK || cl.Call.StaticCallee() == nil || !(indexFinder(origin(cl.Call.StaticCallee())) || equalIndexFunc(cl) != nil) {
 				continue
 			}
 			// does the fact say "the result is a real index" (>= 0) or "it is the negative no-match value"?
@@ -981,4 +1005,44 @@ var excRange = map[string]string{
 	"tlb.encode boc.Cell.WriteUint value reflect.Value.Uint() in 16 bits":          "reflect kind Uint16",
 	"tlb.encode boc.Cell.WriteUint value reflect.Value.Uint() in 32 bits":          "reflect kind Uint32",
 	"wallet.genContextID boc.Cell.WriteUint value workchain in 8 bits":             "a workchain id is written as its 8-bit two's complement on purpose (-1 -> 0xFF); the highload/v5 contracts read it back as int8",
+}
+
+// equalIndexFunc: cl is slices.IndexFunc(xs, pred) with pred a function literal every return of which is
+// param.Equal(_) on its own parameter: the index of the first element Equal to something, or -1. Returns the
+// Equal call.
+func equalIndexFunc(cl *ssa.Call) *ssa.Call {
+	if cl == nil || !strings.HasPrefix(callQName(&cl.Call), "slices.IndexFunc") || len(cl.Call.Args) != 2 {
+		return nil
+	}
+	// over the whole collection: an index into a sub-slice is not an index into the collection
+	if _, sub := cl.Call.Args[0].(*ssa.Slice); sub {
+		return nil
+	}
+	var fn *ssa.Function
+	switch x := cl.Call.Args[1].(type) {
+	case *ssa.MakeClosure:
+		fn, _ = x.Fn.(*ssa.Function)
+	case *ssa.Function:
+		fn = x
+	}
+	if fn == nil || len(fn.Params) != 1 || len(fn.Blocks) == 0 {
+		return nil
+	}
+	var eq *ssa.Call
+	for _, r := range returnsOf(fn) {
+		e := callOf(retVal(r, 0))
+		if e == nil || !e.Call.IsInvoke() || e.Call.Method.Name() != "Equal" {
+			return nil
+		}
+		// the receiver is the element handed in (possibly boxed into the key interface)
+		recv := e.Call.Value
+		if mi, ok := recv.(*ssa.MakeInterface); ok {
+			recv = mi.X
+		}
+		if recv != ssa.Value(fn.Params[0]) {
+			return nil
+		}
+		eq = e
+	}
+	return eq
 }
